@@ -231,6 +231,19 @@ def run(c, facts, tier):
                 forms.append(("quoted %s" % q0.get("s"), okf))
             elif a["t"] == "set":
                 forms.append(("bare", a["min"] >= 1 and a["max"] is None))
+                # a bare word is every character up to a blank or a ')': a larger stop set makes `-name a(b` and `-name 'a(b'`
+                # different inputs, a smaller one makes a blank kind or ')' part of the word
+                want = peg.cs_compl(peg.cs_union(peg.named_set("multispace"), peg.cs_in(")")))
+                same = peg.cs_subset(a["cs"], want) and peg.cs_subset(want, a["cs"])
+                extra_stops = peg.cs_inter(peg.cs_compl(a["cs"]), want)
+                c.ob(
+                    "C06.quoting",
+                    key,
+                    "a bare word runs up to the next blank or ')'",
+                    same,
+                    "bare-word characters: %s; required: everything except blanks and ')'%s" % (peg.cs_show(a["cs"]), "" if same else ("; additionally stops at %s: quoting would change the value" % peg.cs_show(extra_stops) if not peg.cs_empty(extra_stops) else "; some blank or ')' is taken into the word")),
+                    witness=("-name a%sb  versus  -name 'a%sb'" % ((peg.cs_example(extra_stops),) * 2)) if not same and not peg.cs_empty(extra_stops) else None,
+                )
             else:
                 forms.append((peg.show(a), False))
                 raw_ok = False
